@@ -54,10 +54,25 @@ class Stub:
         return f"<stub {self.name}>"
 
 
+_NO_DEFAULT = object()
+
+
 @dataclasses.dataclass
 class Param:
     name: str
     tkey: str = "t0"
+    default: object = _NO_DEFAULT      # default value of the parameter in the stub's signature
+
+
+class CodeRepr:
+    """an object whose repr is code: if a generator pastes repr(default) into source text, the canary appears in builtins"""
+
+    def __repr__(self):
+        return "setattr(__import__('builtins'), 'C19_CANARY_DEFAULT', True)"
+
+
+class PlainObject:
+    pass
 
 
 class ConvCase:
@@ -148,8 +163,10 @@ class ConvCase:
                 raise ValueError("get_converter takes no extra parameters")
             kw = {"name": self.fn_name} if self.fn_name is not None else {}
             return retort.get_converter(src_cls, dst_cls, recipe=self.recipe(), **kw)
-        pars = [f"{self.src_param}: _src_"] + [f"{p.name}: _t_[{p.name!r}]" for p in self.params]
-        glob = {"_src_": src_cls, "_dst_": dst_cls, "_t_": {p.name: opaque(p.tkey) for p in self.params}}
+        pars = [f"{self.src_param}: _src_"] + [f"{p.name}: _t_[{p.name!r}]" + ("" if p.default is _NO_DEFAULT else f" = _d_[{p.name!r}]")
+                                               for p in self.params]
+        glob = {"_src_": src_cls, "_dst_": dst_cls, "_t_": {p.name: opaque(p.tkey) for p in self.params},
+                "_d_": {p.name: p.default for p in self.params if p.default is not _NO_DEFAULT}}
         name = self.fn_name or "stub_converter"
         exec(compile(f"def {name}({', '.join(pars)}) -> _dst_:\n    ...\n", "<converter stub>", "exec", dont_inherit=True), glob)  # noqa: S102
         self.stub_fn = glob[name]
@@ -414,6 +431,15 @@ def _verify(case, tier, seed):
         elif case.fn_name is not None:
             simple("name-as-requested", ["C13"], conv.__name__ == case.fn_name, f"converter is named {conv.__name__!r}")
         mism = native_conv_check(case, conv, exp)
+        if any(p.default is not _NO_DEFAULT for p in case.params):
+            dm = [m for m in mism if m["clause"] == "default-of-parameter"]
+            simple("default-of-parameter", ["C13"], not dm, dm[0]["native_outcome"] if dm else "")
+    import builtins as _b
+    if case.hostile:
+        canaries = [n for n in dir(_b) if n.startswith("C19_CANARY")]
+        simple("no-text-executed", [], not canaries, f"text supplied as data was executed: builtins now has {canaries}")
+        for n in canaries:
+            delattr(_b, n)
     t1 = time.time()
     discharge(interp, obls, 6000 if tier == "quick" else 60000, ext_budget=(6000 if tier == "quick" else None))
     out["solver_time"] = time.time() - t1
@@ -423,7 +449,7 @@ def _verify(case, tier, seed):
         out["obls"].append({"name": o.name, "clause": o.clause, "props": o.props, "status": o.status, "backend": o.backend,
                             "time": round(o.time, 4)})
     for o in bad:
-        if o.clause in ("created", "refused", "signature-preserved", "name-as-requested"):
+        if o.clause in ("created", "refused", "signature-preserved", "name-as-requested", "default-of-parameter", "no-text-executed"):
             ws = [{"clause": o.clause, "signature": case.label, "input": case.describe(), "native_outcome": o.note}]
         else:
             ws = mism[:3]
@@ -489,6 +515,24 @@ def native_conv_check(case, conv, exp):
         if repr(src) != snap:
             out.append({"clause": "modifies-nothing", "signature": f"{case.label}#{round_}", "input": snap[:300],
                         "native_outcome": f"source changed to {src!r}"[:300]})
+    # parameters with a default may be omitted: the stub's own default is what the converter uses
+    n_keep = len(case.params)
+    while n_keep > 0 and case.params[n_keep - 1].default is not _NO_DEFAULT:
+        n_keep -= 1
+    if n_keep < len(case.params):
+        src = sample_object(case, case.src, "sd")
+        env = {"src": src}
+        for i, p in enumerate(case.params):
+            env[p.name] = f"argd:{p.name}" if i < n_keep else p.default
+        try:
+            got = conv(src, *[env[p.name] for p in case.params[:n_keep]])
+            want = native_value(case, exp, env)
+            if got != want or type(got) is not type(want):
+                out.append({"clause": "default-of-parameter", "signature": f"{case.label}#defaults", "input": repr(src)[:300],
+                            "native_outcome": f"with defaulted parameters omitted the converter returned {got!r}, expected {want!r}"[:400]})
+        except Exception as e:  # noqa: BLE001
+            out.append({"clause": "default-of-parameter", "signature": f"{case.label}#defaults", "input": repr(src)[:300],
+                        "native_outcome": f"raised {type(e).__name__}: {e}"[:300]})
     return out
 
 
@@ -586,6 +630,8 @@ def conv_family(tier="quick", group="base"):
     add("history-failed-then-recipe", A3, M("B", [CF("a"), CF("w")]), [("link", "b", "w")], prior=[[]])
     add("history-recipe-then-refused", A3, M("B", [CF("a"), CF("w")]), [], prior=[[("link", "b", "w")]])
     add("history-constant-changes", A3, M("B", [CF("a"), CF("k")]), [("const", "k", ("value", 2))], prior=[[("const", "k", ("value", 1))]])
+    add("param-default", A3, M("B", [CF("a"), CF("x", "any")]), params=[Param("x", "any", 5)])
+    add("param-default-none", A3, M("B", [CF("a"), CF("x", "any"), CF("y", "any")]), params=[Param("x", "any"), Param("y", "any", None)])
     add("named", A3, M("B", [CF("a")]), fn_name="my_converter")
     add("impl-no-params", A3, M("B", [CF("a"), CF("b")]), via="impl_converter", fn_name="book_to_dto")
     return cases
@@ -626,6 +672,9 @@ def hostile_conv_family(tier="quick"):
     # model names
     for i, mn in enumerate(["x y", "a²b", 'M"; import os #', "1st", "a.b[c]", "M\nN", "class", "data", "coercer"]):
         add(f"model-name{i}", M(mn, [CF("a"), CF("n", M(mn + "In", [CF("p")]))]), M(mn, [CF("a"), CF("n", M(mn + "Out", [CF("p")]))]))
+    # defaults of the stub's parameters are data as well
+    for i, dv in enumerate([CodeRepr(), PlainObject(), "it's \"q\"", "line\nbreak", float("inf"), (CodeRepr(),), b"\x00'", Ellipsis]):
+        add(f"param-default{i}", A3, M("B", [CF("a"), CF("x", "any")]), params=[Param("x", "any", dv)])
     # hostile constants
     for i, v in enumerate(["it's", 'say "hi"', "back\\slash", "{brace}", "${expr}", "line\nbreak", "'''", "\x00"]):
         add(f"constant{i}", A3, M("B", [CF("a"), CF("k")]), [("const", "k", ("value", v))])
